@@ -671,6 +671,11 @@ func (s *muxerStream) rotateParts(
 
 	err := part.finalize(nextDTS)
 	if err != nil {
+		// the part will never be served: remove the handler that is waiting for it
+		// (EXT-X-PRELOAD-HINT), otherwise it finds itself under the path of the part.
+		if s.variant == MuxerVariantLowLatency {
+			s.server.unregisterPath(part.path)
+		}
 		return err
 	}
 
@@ -723,9 +728,12 @@ func (s *muxerStream) rotateParts(
 
 				s.mutex.Unlock()
 
-				if h != nil {
-					h(w, r)
+				if h == nil {
+					w.WriteHeader(http.StatusNotFound)
+					return
 				}
+
+				h(w, r)
 			})
 	}
 
